@@ -107,6 +107,13 @@ func cmdReplayCosOpt(args []string) error {
 			}
 			want = expDirect
 			check("GetCosmeticOption", optionSet(rules.NewMatchingResult(rs, nil).GetCosmeticOption()), "")
+			// the option of a request is decided by the rules of that request: what the page it comes from is excepted
+			// from (MC_Cosmetic ReferrerIrrelevant) changes which blocking rules count, never the cosmetic option
+			for _, ref := range []string{"@@||ref.test^$document", "@@||ref.test^$urlblock", "@@||ref.test^$genericblock", "@@||ref.test^$elemhide"} {
+				if rr, err := rules.NewNetworkRule(ref, 2); err == nil {
+					check("GetCosmeticOption(the referrer matches "+ref+")", optionSet(rules.NewMatchingResult(rs, []*rules.NetworkRule{rr}).GetCosmeticOption()), "")
+				}
+			}
 			want = exp
 			// through the engine: the option drives which selectors the cosmetic engine returns
 			// (a generic rule, a rule for the host, and - for a second host, under a real public suffix - a rule for the
